@@ -458,6 +458,59 @@ static void c14_conv_run(void) {
 }
 /* ---- random-access channel on a regular file (memfd): reads and writes at offsets, regions of one epoch are
  * disjoint, epochs are separated by barriers; the file is compared with a model at every barrier and at the end ---- */
+// a second channel on another file of the same device, never closed or stopped while its operations are in flight:
+// whatever happens to the channel under test (close, STOP, errors), these two operations move exactly their bytes
+static struct { int on, fd; dispatch_io_t ch; size_t size, half; unsigned char *rgot; size_t nrgot, wleft; int rdone, rerr, wdone, werr, cleanup; } Y;
+static inline unsigned char ypat(size_t k) { return (unsigned char)(pat(k) ^ 0x5a); }
+static bool by_done(void *c) { (void)c; return Y.rdone && Y.wdone; }
+static bool by_cleaned(void *c) { (void)c; return Y.cleanup > 0; }
+static void bystander_start(void) {
+	Y.size = (size_t)g_range(8000, MAXBYTES - 10000); Y.half = Y.size / 2;
+	unsigned char *init = malloc(Y.size); for (size_t k = 0; k < Y.size; k++) init[k] = ypat(k);
+	Y.fd = memfd_create("c14-bystander", 0);
+	if (Y.fd < 0 || write(Y.fd, init, Y.size) != (ssize_t)Y.size) h_viol("harness", "memfd");
+	lseek(Y.fd, 0, SEEK_SET); free(init);
+	Y.rgot = malloc(MAXBYTES);
+	Y.ch = dispatch_io_create(DISPATCH_IO_RANDOM, Y.fd, X.hq, ^(int error) { (void)error; Y.cleanup++; h_progress(); });
+	if (!Y.ch) h_viol("create", "dispatch_io_create failed");
+	dispatch_io_read(Y.ch, 0, Y.half, X.hq, ^(bool done, dispatch_data_t data, int error) {
+		if (Y.rdone) h_viol("after-done", "the read handler of the second channel was invoked again after it had seen done");
+		size_t n = data ? dispatch_data_get_size(data) : 0;
+		if (n) { if (Y.nrgot + n > MAXBYTES) h_viol("too-much-data", "second channel: more than %d bytes", MAXBYTES);
+			const void *ptr; size_t sz; dispatch_data_t map = dispatch_data_create_map(data, &ptr, &sz); memcpy(Y.rgot + Y.nrgot, ptr, n); Y.nrgot += n; dispatch_release(map); }
+		if (error) Y.rerr = error;
+		if (done) { Y.rdone++; h_log("second channel: read done with %zu of %zu bytes, error %d", Y.nrgot, Y.half, Y.rerr); }
+		h_progress();
+	});
+	unsigned char *buf = malloc(Y.size - Y.half); for (size_t k = 0; k < Y.size - Y.half; k++) buf[k] = (unsigned char)(ypat(Y.half + k) + 1);
+	dispatch_data_t d = dispatch_data_create(buf, Y.size - Y.half, NULL, DISPATCH_DATA_DESTRUCTOR_FREE);
+	dispatch_io_write(Y.ch, (off_t)Y.half, d, X.hq, ^(bool done, dispatch_data_t data, int error) {
+		if (Y.wdone) h_viol("after-done", "the write handler of the second channel was invoked again after it had seen done");
+		Y.wleft = data ? dispatch_data_get_size(data) : 0;
+		if (error) Y.werr = error;
+		if (done) { Y.wdone++; h_log("second channel: write done with %zu of %zu bytes unwritten, error %d", Y.wleft, Y.size - Y.half, Y.werr); }
+		h_progress();
+	});
+	dispatch_release(d);
+}
+static void bystander_judge(void) {
+	if (h_wait_until(by_done, NULL, LIVENESS_NS)) h_stuck("never-done", "an operation of a second channel on the same device (never closed or stopped) never saw done");
+	if (Y.rerr || Y.werr) h_viol("bystander-error", "an operation of a channel that was never closed or stopped completed with error %d (the other channel on the same device was %s)", Y.rerr ? Y.rerr : Y.werr, X.stop ? "stopped" : X.closed_call ? "closed" : "left alone");
+	if (Y.nrgot != Y.half) h_viol("short-read", "a read of %zu bytes on a channel that was never closed or stopped completed without error with %zu bytes (the other channel on the same device was %s)", Y.half, Y.nrgot, X.stop ? "stopped" : X.closed_call ? "closed" : "left alone");
+	for (size_t k = 0; k < Y.nrgot; k++) if (Y.rgot[k] != ypat(k)) h_viol("wrong-bytes", "second channel: byte %zu read is 0x%02x, the file has 0x%02x", k, Y.rgot[k], ypat(k));
+	if (Y.wleft) h_viol("unwritten-without-error", "a write on a channel that was never closed or stopped reported %zu unwritten bytes without an error", Y.wleft);
+	unsigned char *buf = malloc(Y.size);
+	if (pread(Y.fd, buf, Y.size, 0) != (ssize_t)Y.size) h_viol("harness", "pread of the second file failed");
+	for (size_t k = 0; k < Y.size; k++) { unsigned char want = k < Y.half ? ypat(k) : (unsigned char)(ypat(k) + 1);
+		if (buf[k] != want) h_viol("file-contents", "second channel: its write completed without error and nothing unwritten, but byte %zu of the file is 0x%02x, not 0x%02x (the other channel on the same device was %s)", k, buf[k], want, X.stop ? "stopped" : X.closed_call ? "closed" : "left alone"); }
+	free(buf);
+	dispatch_io_close(Y.ch, 0); dispatch_release(Y.ch);
+	if (h_wait_until(by_cleaned, NULL, LIVENESS_NS)) h_stuck("no-cleanup", "the cleanup handler of the second channel did not run after close and release");
+	h_settle(5 * MSEC);
+	if (Y.cleanup != 1) h_viol("cleanup-count", "the cleanup handler of the second channel ran %d times", Y.cleanup);
+	if (Y.rdone != 1 || Y.wdone != 1) h_viol("done-count", "operations of the second channel saw done %d and %d times", Y.rdone, Y.wdone);
+	close(Y.fd);
+}
 static void file_compare(const char *when) {
 	unsigned char *buf = malloc(X.file_size);
 	ssize_t r = pread(X.peer_fd, buf, X.file_size, 0);   // through an unwatched duplicate: no injected faults for the harness
@@ -469,7 +522,8 @@ static void c14_file_run(void) {
 	bool big = RC.cfg & CFG_THOROUGH;
 	int file_epoch = 0;
 	X.kind = CH_FILE; X.is_stream = 0; X.hq_serial = g_chance(1, 2);
-	X.file_size = (size_t)g_range(2000, big ? 120000 : 60000);   // slices of a sixth: up to a few chunks at 4 KiB chunks
+	memset(&Y, 0, sizeof Y); Y.on = g_chance(1, 2);
+	X.file_size = (size_t)g_range(2000, big || Y.on ? 120000 : 60000);   // slices of a sixth: up to a few chunks at 4 KiB chunks
 	X.file_model = malloc(X.file_size);
 	for (size_t k = 0; k < X.file_size; k++) X.file_model[k] = pat(k);
 	X.by_path = g_chance(1, 2);
@@ -479,6 +533,8 @@ static void c14_file_run(void) {
 	for (int i = 0; i < X.nops; i++) {
 		ioop *op = &X.ops[i]; memset(op, 0, sizeof *op); op->idx = idx++; op->got = malloc(MAXBYTES);
 		uint32_t r = g_n(100);
+		// the channel closed or stopped with operations in flight (nothing is submitted afterwards)
+		if (i >= 1 && g_chance(1, Y.on ? 5 : 10)) { op->kind = g_chance(2, 3) ? IO_STOP : IO_CLOSE; op->pause = g_chance(1, 3) ? 0 : (uint64_t)g_range(1, 400) * USEC; X.nops = i + 1; break; }
 		if (slice >= (int)nsl || r < 15) { op->kind = IO_BARRIER; slice = 0; continue; }
 		if (r < 25) { op->kind = IO_SET_WATER; op->high = (size_t)g_range(64, 3000);
 			if (io_chunk_pages <= 4 && g_chance(1, 2)) { size_t ch = (size_t)io_chunk_pages * 4096; op->low = ch + (size_t)g_n((uint32_t)ch); op->high = op->low + (size_t)g_n((uint32_t)ch); }
@@ -487,7 +543,7 @@ static void c14_file_run(void) {
 		size_t off = (size_t)slice * sl + g_n((uint32_t)(sl / 2)), len = 1 + g_n((uint32_t)(sl - (off - (size_t)slice * sl) - 1));
 		op->off = (off_t)off; op->len = len; slice++;
 	}
-	h_sample("%s (%zu bytes, opened by %s); handlers on a %s queue\n", chn[X.kind], X.file_size, X.by_path ? "path" : "descriptor", X.hq_serial ? "serial" : "global");
+	h_sample("%s (%zu bytes, opened by %s); handlers on a %s queue%s\n", chn[X.kind], X.file_size, X.by_path ? "path" : "descriptor", X.hq_serial ? "serial" : "global", Y.on ? "; a second channel on another file of the same device reads and writes meanwhile" : "");
 	for (int i = 0; i < X.nops; i++) if (op_on(X.ops[i].idx)) { ioop *op = &X.ops[i]; h_sample(" #%d %s", op->idx, ion[op->kind]); if (op->kind == IO_READ || op->kind == IO_WRITE) h_sample("(off %ld, len %zu)", (long)op->off, op->len); h_sample("\n"); }
 	h_announce();
 	X.fd = memfd_create("c14", 0);
@@ -503,6 +559,7 @@ static void c14_file_run(void) {
 		X.ch = dispatch_io_create_with_path(DISPATCH_IO_RANDOM, path, O_RDWR, 0, X.hq, cleanup);
 	} else X.ch = dispatch_io_create(DISPATCH_IO_RANDOM, chfd, X.hq, cleanup);
 	if (!X.ch) h_viol("create", "dispatch_io_create failed");
+	if (Y.on) bystander_start();
 	// client: submit; reads expect the model as of their epoch, writes update it when they complete without error
 	for (int i = 0; i < X.nops; i++) {
 		ioop *op = &X.ops[i]; if (!op_on(op->idx)) continue;
@@ -521,12 +578,14 @@ static void c14_file_run(void) {
 			continue;
 		}
 		op->epoch = file_epoch;
+		if ((op->kind == IO_STOP || op->kind == IO_CLOSE) && op->pause) sim_sleep_ns(op->pause);   // the earlier operations are under way
 		submit_op(op);
 		sim_point();
 	}
 	X.client_done = 1;
 	if (h_wait_until(io_done, NULL, LIVENESS_NS)) h_stuck("never-done", "a file operation never saw done");
-	dispatch_io_close(X.ch, 0); X.closed_call = 1;
+	if (Y.on) bystander_judge();
+	if (!X.closed_call) { dispatch_io_close(X.ch, 0); X.closed_call = 1; }
 	dispatch_release(X.ch);
 	if (h_wait_until(io_cleaned, NULL, LIVENESS_NS)) h_stuck("no-cleanup", "the channel's cleanup handler did not run after close and release");
 	h_settle(10 * MSEC);
@@ -534,11 +593,13 @@ static void c14_file_run(void) {
 	for (int i = 0; i < X.nops; i++) {
 		ioop *op = &X.ops[i]; if (!op->submitted) continue;
 		if (op->kind == IO_WRITE && op->ngot && !op->err) h_viol("unwritten-without-error", "file io_write #%d reported %zu unwritten bytes without an error", op->idx, op->ngot);
+		if (op->kind == IO_WRITE && op->err && !hard && !X.stop) h_viol("spurious-error", "file io_write #%d completed with error %d although no error was injected and the channel was not stopped", op->idx, op->err);
 		if (op->kind == IO_WRITE && !op->after_done) { size_t written = op->len - op->ngot; for (size_t k = 0; k < written; k++) X.file_model[(size_t)op->off + k] = pat((size_t)op->off + k + 1000 * (size_t)op->idx);
 			if (op->ngot && !op->err) h_viol("unwritten-without-error", "file io_write #%d reported %zu unwritten bytes without an error", op->idx, op->ngot); }
 		if (op->kind == IO_READ) {
 			if (op->ngot > op->len) h_viol("too-much-data", "file io_read #%d delivered %zu of %zu bytes", op->idx, op->ngot, op->len);
 			if (!op->err && !hard && op->ngot != op->len) h_viol("short-read", "file io_read #%d (off %ld len %zu) completed without error with %zu bytes", op->idx, (long)op->off, op->len, op->ngot);
+			if (op->err && !hard && !X.stop) h_viol("spurious-error", "file io_read #%d completed with error %d although no error was injected and the channel was not stopped", op->idx, op->err);
 			// every byte is what the last write of an earlier epoch left there (or the original contents); writes of
 			// the read's own epoch only overlap it when barriers were switched off by the minimiser: then either value
 			// is admissible; a write of a later epoch must never be visible
@@ -557,7 +618,8 @@ static void c14_file_run(void) {
 	}
 	if (X.cleanup_count != 1) h_viol("cleanup-count", "the cleanup handler ran %d times", X.cleanup_count);
 	if (!hard) file_compare("at the end");
-	RES.counters[0] = X.nops; RES.counters[2] = sim_io_ncalls; RES.counters[4] = 1;
+	if (known_clause[0]) h_viol(known_clause, "%s", known_msg);
+	RES.counters[0] = X.nops; RES.counters[2] = sim_io_ncalls; RES.counters[3] = X.stop; RES.counters[4] = 1; RES.counters[7] = Y.on;
 	RES.nontrivial = sim_io_ncalls >= 2 && sim_st.switches > 10;
 }
 
@@ -572,6 +634,6 @@ static void c14_tune(sim_knobs *k, unsigned cfg, uint64_t *g) {
 		if ((g[0] >> 4) % 3 == 0) k->iofault_mask |= (1u << IOF_EIO) | (1u << IOF_ENOSPC) | (1u << IOF_EPIPE);
 	}
 }
-static const char *const c14_names[] = { "operations", "bytes_delivered_or_unwritten", "intercepted_io_calls", "runs_with_stop", "file_channel_runs", "convenience_api_runs", "derived_channel_runs", NULL };
+static const char *const c14_names[] = { "operations", "bytes_delivered_or_unwritten", "intercepted_io_calls", "runs_with_stop", "file_channel_runs", "convenience_api_runs", "derived_channel_runs", "second_channel_same_device_runs", NULL };
 const prop_def prop_C14 = { "C14", c14_tune, c14_run, c14_names,
 	"non-trivial: the library made at least two read/write system calls on the descriptor under test and more than 10 context switches happened; distinct = distinct schedule signatures among those" };
